@@ -15,6 +15,9 @@ func (s State) Validate() error {
 	if !s.Burn && s.Account == nil {
 		return fmt.Errorf("when burn is set to false account must exist")
 	}
+	if !s.Burn && s.GetStateKey() == BurnStateKey {
+		return fmt.Errorf("when burn is set to false account id and type cannot be empty")
+	}
 	if err := s.IsNegative(); err != nil {
 		return err
 	}
